@@ -26,7 +26,7 @@ def is_source_file(filename: str | os.PathLike) -> bool:
     if not (isinstance(filename, str) or isinstance(filename, Path)):
         raise TypeError("filename must be a string or Path")
 
-    extension = Path(filename).suffix
+    extension = os.path.splitext(filename)[1]
     supported_extensions = [
         ".f90",
         ".F90",
